@@ -5,7 +5,9 @@
 //
 // Families (--family)
 //   honest    groups x variant {two,n,opt} x N x EVERY sigma x message-vector class x seeds.
-//             quick: N = 2..9, 2 seeds, groups {tiny 32/16 bit, admissible 256/128 bit};
+//             quick: N = 2..9, 2 seeds, groups {tiny 32/16 bit, admissible 256/128 bit}; plus N = 2..4 (thorough 2..9) on
+//             groups whose q is longer than the nominal subgroup size both parties import them with (48/24 as 48/16,
+//             256/160 as 256/128);
 //             thorough: every N = 2..64, 3 seeds, same groups, plus the default 2048/256 bit group for N in {2,3,9}.
 //   malformed the chooser's first move is altered on the wire (relay hook): every position (x, y, every z_i) x the
 //             group-element catalogue {0, 1, p-1, p, v+p, p-v, "-v", least non-member, v+1, v*g (another member),
@@ -71,7 +73,10 @@ struct Group {
 	unsigned long qbits;
 };
 
-static Group *make_group(const std::string &name, unsigned long fs, unsigned long gs, bool micro, uint64_t id)
+// gs_nominal != 0: the group is generated with subgroup size gs, and BOTH parties then import it through the stream constructor
+// with the smaller nominal size gs_nominal (CheckGroup only demands |q| >= nominal size), so every size-dependent table has to be
+// dimensioned from q itself (added after seeded change C18-3)
+static Group *make_group(const std::string &name, unsigned long fs, unsigned long gs, bool micro, uint64_t id, unsigned long gs_nominal = 0)
 {
 	Group *G = new Group;
 	G->name = name;
@@ -87,7 +92,13 @@ static Group *make_group(const std::string &name, unsigned long fs, unsigned lon
 		G->chooser.reset(new NaorPinkasEOTP(fs, gs));
 	std::stringstream pub;
 	G->chooser->PublishGroup(pub);
-	G->sender.reset(new NaorPinkasEOTP(pub, micro ? 5 : fs, micro ? 4 : gs));
+	G->sender.reset(new NaorPinkasEOTP(pub, micro ? 5 : fs, micro ? 4 : (gs_nominal ? gs_nominal : gs)));
+	if (gs_nominal)
+	{
+		std::stringstream pub2;
+		G->sender->PublishGroup(pub2);
+		G->chooser.reset(new NaorPinkasEOTP(pub2, fs, gs_nominal));
+	}
 	mcenv::cur = old;
 	G->qbits = mpz_sizeinbase(G->chooser->q, 2);
 	G->big = G->qbits >= 128;
@@ -562,11 +573,17 @@ static void fam_honest(bool thorough)
 	std::vector<Group *> groups;
 	groups.push_back(make_group("tiny32", 32, 16, false, 1));
 	groups.push_back(make_group("adm256", 256, 128, false, 2));
+	groups.push_back(nullptr);
+	groups.push_back(make_group("long48", 48, 24, false, 4, 16));       // |q| = 24 imported as a 16-bit subgroup
+	groups.push_back(make_group("long256", 256, 160, false, 5, 128));   // |q| = 160 imported as a 128-bit subgroup
+	static const char *gname[] = { "tiny32", "adm256", "def2048", "long48", "long256" };
 	Group *def = nullptr;
 	size_t Nmax = thorough ? 64 : 9;
 	unsigned seeds = thorough ? 3 : 2;
-	for (size_t gi = 0; gi < (thorough ? 3u : 2u); gi++)
+	for (size_t gi = 0; gi < 5u; gi++)
 	{
+		if (gi == 2 && !thorough)
+			continue;
 		for (int variant = 0; variant < 3; variant++)
 			for (size_t N = 2; N <= Nmax; N++)
 			{
@@ -574,9 +591,11 @@ static void fam_honest(bool thorough)
 					continue;
 				if (gi == 2 && N != 2 && N != 3 && N != 9)
 					continue;
+				if (gi >= 3 && N > (thorough ? 9u : 4u))
+					continue;
 				for (size_t sigma = 0; sigma < N; sigma++)
 				{
-					std::string cell = std::string("honest/") + (gi == 0 ? "tiny32" : gi == 1 ? "adm256" : "def2048") + "/" + vname[variant] + "/N" + str(N) + "/s" + str(sigma);
+					std::string cell = std::string("honest/") + gname[gi] + "/" + vname[variant] + "/N" + str(N) + "/s" + str(sigma);
 					bool mine = R->mine();
 					if (!mine)
 						continue;
@@ -773,7 +792,7 @@ int main(int argc, char **argv)
 	rep.counters["curious_equal_predicted_from_coins"] = tally.cur_eq_pred;
 	rep.counters["honest_z_collisions_refused"] = tally.collisions;
 	rep.counters["curious_c_j_not_recovered"] = tally.no_c;
-	rep.bound = family == "honest" ? (thorough ? "N<=64, every sigma, 4 message classes, 3 seeds" : "N<=9, every sigma, 4 message classes, 2 seeds")
+	rep.bound = family == "honest" ? (thorough ? "N<=64, every sigma, 4 message classes, 3 seeds; long-q groups (|q| above the nominal subgroup size) N<=9" : "N<=9, every sigma, 4 message classes, 2 seeds; long-q groups (|q| above the nominal subgroup size) N<=4")
 		: family == "malformed" ? (thorough ? "N<=9, every position x catalogue" : "N<=5, every position x catalogue")
 		: (thorough ? "Z_11: chooser draws^3, sender draws^4" : "Z_11: chooser draws^3, sender draws^3");
 	rep.finish();
